@@ -51,6 +51,10 @@ func c13Run(s *SharedStore, o *c13Op) {
 		o.n = len(m)
 		o.valA, o.hasA = m["a"]
 		o.valB, o.hasB = m["b"]
+		// the caller owns what GetAll returned and may scribble on it: no other operation's answer
+		// (nor the store) is affected — every answer is still explained by the store's own history
+		m["ghost"] = 1
+		delete(m, "a")
 	case 7:
 		s.Merge(map[string]any{"a": o.val, "b": o.val})
 	default:
